@@ -8,6 +8,7 @@ package main
 import (
 	"go/token"
 	"go/types"
+	"strings"
 
 	"golang.org/x/tools/go/ssa"
 )
@@ -241,4 +242,104 @@ func fieldOps(fn *ssa.Function, f *types.Var) (incs, resets []ssa.Instruction) {
 		}
 	})
 	return
+}
+
+// ---- searches over a list with a predicate (slices.IndexFunc, slices.ContainsFunc, strings.IndexFunc, …) ----
+
+// searchFact: one call `IndexFunc(list, pred)` / `ContainsFunc(list, pred)` in a function: the list, the
+// predicate (a function literal or a named function of the repository), and the edges of the calling
+// function on which NO element satisfied the predicate / on which SOME element did.
+type searchFact struct {
+	call *ssa.Call
+	list ssa.Value
+	pred *ssa.Function
+	none []Edge
+	some []Edge
+}
+
+func elementSearches(fn *ssa.Function) []searchFact {
+	var out []searchFact
+	for _, ci := range callsIn(fn) {
+		call, ok := ci.(*ssa.Call)
+		if !ok || len(call.Call.Args) != 2 {
+			continue
+		}
+		name := calleeName(call)
+		kind := ""
+		for _, p := range []string{"slices.IndexFunc", "strings.IndexFunc", "bytes.IndexFunc"} {
+			if name == p || strings.HasPrefix(name, p+"[") {
+				kind = "index"
+			}
+		}
+		for _, p := range []string{"slices.ContainsFunc", "strings.ContainsFunc", "bytes.ContainsFunc"} {
+			if name == p || strings.HasPrefix(name, p+"[") {
+				kind = "contains"
+			}
+		}
+		if kind == "" {
+			continue
+		}
+		var pred *ssa.Function
+		switch x := stripConv(call.Call.Args[1]).(type) {
+		case *ssa.Function:
+			pred = x
+		case *ssa.MakeClosure:
+			pred = x.Fn.(*ssa.Function)
+		}
+		if pred == nil || pred.Blocks == nil || len(pred.Params) != 1 {
+			continue
+		}
+		sf := searchFact{call: call, list: call.Call.Args[0], pred: pred}
+		if kind == "contains" {
+			sf.some, sf.none = boolEdges(call)
+		} else {
+			lt, ge1 := cmpEdges(fn, func(b *ssa.BinOp) bool {
+				k, ok := constInt(b.Y)
+				return b.X == ssa.Value(call) && ok && ((b.Op == token.LSS && k == 0) || (b.Op == token.EQL && k == -1) || (b.Op == token.LEQ && k == -1))
+			})
+			ge, lt1 := cmpEdges(fn, func(b *ssa.BinOp) bool {
+				k, ok := constInt(b.Y)
+				return b.X == ssa.Value(call) && ok && ((b.Op == token.GEQ && k == 0) || (b.Op == token.NEQ && k == -1) || (b.Op == token.GTR && k == -1))
+			})
+			sf.none = append(lt, lt1...)
+			sf.some = append(ge, ge1...)
+		}
+		out = append(out, sf)
+	}
+	return out
+}
+
+// capturedCounter: v reads, inside a function literal, a variable of the enclosing function that is only
+// ever set to a constant or advanced by one (the loop counter the literal mentions)
+func capturedCounter(v ssa.Value) bool {
+	u, ok := stripNum(v).(*ssa.UnOp)
+	if !ok || u.Op != token.MUL {
+		return false
+	}
+	fv, ok := u.X.(*ssa.FreeVar)
+	if !ok {
+		return false
+	}
+	al, ok := (&apWalker{}).freeVarBinding(fv).(*ssa.Alloc)
+	if !ok {
+		return false
+	}
+	n := 0
+	for _, ref := range *al.Referrers() {
+		st, isSt := ref.(*ssa.Store)
+		if !isSt || st.Addr != ssa.Value(al) {
+			continue
+		}
+		n++
+		switch x := st.Val.(type) {
+		case *ssa.Const:
+		case *ssa.BinOp:
+			if k, isK := constInt(x.Y); !(x.Op == token.ADD && isK && k == 1) {
+				return false
+			}
+		default:
+			return false
+		}
+	}
+	return n > 0
 }
